@@ -3589,3 +3589,26 @@ Q(name="e2_quinn_read_reset_remembered", props=["C11"], crate="quinn", func=r"re
   functions=["quinn::RecvStream::poll_read_generic (generic over the read function; the MIR before monomorphisation)"], pre=lambda c: "true", post=qrr_post,
   bounds="every state of the handle, every status the read function can report: whenever it reports that the stream was reset (with or without data read in the same call), the handle has recorded Some(code) when the call returns - the protocol layer frees the stream once the reset was read, so the handle is the only place that still knows how the receiving half ended, and RecvStream::received_reset answers from it",
   replay=("quinn-test:reset_seen_by_read_is_remembered", lambda m: [dict()]))
+
+
+# ------------------------------------------------------------------ C19: every byte of a coalesced receive buffer is handed on as a datagram (the splitting loop ends only on an empty buffer)
+def qps_post(c, p):
+    st = p.p.state
+    if p.p.outcome == "return":
+        return "true"
+    sp = [x for x in st.calls if re.search(r"BytesMut::split_to$", x[0])]
+    if not sp:
+        return "false"
+    if any(re.search(r"quinn_proto::Endpoint::handle$", x[0]) for x in st.calls):
+        return "true"             # a datagram was split off and handed on; the loop goes round again
+    # the loop was left without handing anything on: nothing is left of this receive buffer
+    ln = c.ex.read_key(st, "%s.%d" % (sp[0][2], 1), BV64).t        # BytesMut { ptr, len, cap, data }
+    return eq(ln, bv(0))
+
+
+Q(name="e2_quinn_poll_socket_split_loop", props=["C19"], crate="quinn", func=r"endpoint\.rs:\d+:1: \d+:15>::poll_socket$",
+  src="endpoint.rs", within=r"^    fn poll_socket\(", start_line=r"let mut data = self\.datagrams\.split_to\(meta\.len\);",
+  allowed_panics=r".", check_stop=True, loop_is_stop=True, ignore_untranslatable=r".",
+  functions=["quinn::endpoint::RecvState::poll_socket (slice: from the point where one receive buffer is taken, one pass of the loop that splits it into datagrams)"], pre=lambda c: "true", post=qps_post,
+  bounds="from the statement that takes one receive buffer (arbitrary contents, length and stride) to the next loop back-edge: either a datagram is split off and handed to Endpoint::handle, or the splitting loop is left - and then the buffer's length is 0, so a last datagram shorter than the stride is not dropped; bytes::BytesMut is opaque apart from its length field",
+  replay=("quinn-test:split::every_datagram_of_a_coalesced_buffer_is_delivered", lambda m: [dict()]))
